@@ -124,7 +124,7 @@ def build():
                          requires=[('map_is_keyed_by_item_id', 'old(self).wf()')],
                          ensures=[('C12:files_the_item_under_its_id', 'final(self).id_map.m@.dom().contains(node.ident) && final(self).wf()')])
     fns['node'] = Fn(FI, CTX, 'node', props=P, safety_props=P, sig_rules=[PUB, R_RC],
-                     rules=[R_BOR, Rule('R15', r'\.and_then\(\|v\| v\.upgrade\(\)\)(?:\.map\(Rc::new\))?',
+                     rules=[R_BOR, Rule('R15', r'\.and_then\(\|v\| v\.upgrade\(\)\)(?:\s*\.map\(Rc::new\))?',
                                         f'.and_then(|v: &{value}| -> (r: Option<ItemRef>) ensures (r is Some <==> {"wrapper_alive(v.wrapper@)" if value == "WeakWrapper" else "inner_alive(v.ident)"}), r is Some ==> r->Some_0.ident == v.ident {{ v.upgrade() }})',
                                         'closure gets an explicit contract (specification only): what upgrading this kind of weak handle means; `.map(Rc::new)` (a fresh wrapper) folded in')],
                      label='Context::node',
